@@ -5,11 +5,15 @@ import (
 	"fmt"
 	"time"
 
+	sdkmath "cosmossdk.io/math"
 	dbm "github.com/cosmos/cosmos-db"
 	"github.com/cosmos/cosmos-sdk/codec"
 	sdk "github.com/cosmos/cosmos-sdk/types"
 
+	cstypes "mods.irisnet.org/modules/coinswap/types"
+	farmtypes "mods.irisnet.org/modules/farm/types"
 	servicetypes "mods.irisnet.org/modules/service/types"
+	tokenv1 "mods.irisnet.org/modules/token/types/v1"
 
 	"verif/internal/ev"
 	"verif/internal/rig"
@@ -35,7 +39,7 @@ var extraWorkloads = []func() Workload{
 }
 
 func allWorkloads() []Workload {
-	ws := []Workload{newCoinswapWorkload(), newNFTWorkload(), newMTWorkload(), newRecordWorkload(), newRandomWorkload(), newOracleWorkload(), newPricedCallWorkload()}
+	ws := []Workload{newCoinswapWorkload(), newNFTWorkload(), newMTWorkload(), newRecordWorkload(), newRandomWorkload(), newOracleWorkload(), newPricedCallWorkload(), newParamChurnWorkload()}
 	for _, f := range extraWorkloads {
 		ws = append(ws, f())
 	}
@@ -180,3 +184,61 @@ func (w *pricedCallWorkload) Next(block int) []rig.Tx {
 }
 
 var _ = fmt.Sprint
+
+// ---- paramChurn: mild, valid parameter changes through the authority path during the history, so that anything a
+// process remembers about parameters (caches, package variables) shows up as replica divergence or stale behaviour ----
+
+type paramChurnWorkload struct {
+	run *ev.Run
+	r   *rig.Rig
+}
+
+func newParamChurnWorkload() *paramChurnWorkload { return &paramChurnWorkload{} }
+
+func (w *paramChurnWorkload) Name() string                                        { return "paramchurn" }
+func (w *paramChurnWorkload) Genesis(codec.Codec, map[string]json.RawMessage) {}
+func (w *paramChurnWorkload) Attach(run *ev.Run, r *rig.Rig)                  { w.run, w.r = run, r }
+func (w *paramChurnWorkload) Observe(br *rig.BlockRecord) {
+	for _, tx := range br.Txs {
+		if t, ok := tx.Tag.(string); ok && len(t) > 6 && t[:6] == "churn:" {
+			w.run.Count(t+okSuffix(tx), 1)
+		}
+	}
+}
+
+func (w *paramChurnWorkload) Next(block int) []rig.Tx {
+	if block < 8 || block%9 != 0 {
+		return nil
+	}
+	r := w.r
+	rng := w.run.Rng
+	ctx := r.Ctx()
+	a := r.Acc(rng.Intn(len(r.Accounts)))
+	gov := r.GovAddr.String()
+	dec := func(choices ...string) sdkmath.LegacyDec { return sdkmath.LegacyMustNewDecFromStr(choices[rng.Intn(len(choices))]) }
+	switch rng.Intn(4) {
+	case 0:
+		p := r.K.Token.GetParams(ctx)
+		p.IssueTokenBaseFee = sdk.NewInt64Coin(rig.BondDenom, int64(pick(rng, 60000, 120000, 30000, 1)))
+		p.MintTokenFeeRatio = dec("0.1", "0.2", "0", "1")
+		p.TokenTaxRate = dec("0.4", "0.1", "0", "1")
+		return []rig.Tx{r.InjectRoute(a, "churn:token", &tokenv1.MsgUpdateParams{Authority: gov, Params: p})}
+	case 1:
+		p := r.K.Farm.GetParams(ctx)
+		p.PoolCreationFee = sdk.NewInt64Coin(rig.BondDenom, int64(pick(rng, 5000, 1, 70000)))
+		p.TaxRate = dec("0.4", "0.000000000000000001", "0.999999999999999999", "0.25")
+		p.MaxRewardCategories = uint32(pick(rng, 2, 3, 1))
+		return []rig.Tx{r.InjectRoute(a, "churn:farm", &farmtypes.MsgUpdateParams{Authority: gov, Params: p})}
+	case 2:
+		p := r.K.Service.GetParams(ctx)
+		p.ServiceFeeTax = dec("0.05", "0", "0.5")
+		p.SlashFraction = dec("0.001", "0", "0.5", "1")
+		p.MaxRequestTimeout = int64(pick(rng, 100, 60, 200))
+		return []rig.Tx{r.InjectRoute(a, "churn:service", &servicetypes.MsgUpdateParams{Authority: gov, Params: p})}
+	default:
+		p := r.K.Coinswap.GetParams(ctx)
+		p.TaxRate = dec("0.4", "0.1", "0.9")
+		p.PoolCreationFee = sdk.NewInt64Coin(rig.BondDenom, int64(pick(rng, 5000, 1, 9999)))
+		return []rig.Tx{r.InjectRoute(a, "churn:coinswap", &cstypes.MsgUpdateParams{Authority: gov, Params: p})}
+	}
+}
